@@ -224,6 +224,25 @@ func returnsFresh(f *ssa.Function, depth int) bool {
 		if len(rootsOf(ret.Results[0], f)) > 0 {
 			ok = false
 		}
+		// a new object that keeps a pointer it was given (NewRun(session, ...)) is fresh itself but leads to the
+		// caller's objects: not "fresh" for the purpose of following getters on it
+		for v := range core.BackSlice(ret.Results[0], nil) {
+			al, isAlloc := v.(*ssa.Alloc)
+			if !isAlloc || al.Referrers() == nil {
+				continue
+			}
+			for _, ref := range *al.Referrers() {
+				fa, isFA := ref.(*ssa.FieldAddr)
+				if !isFA || fa.Referrers() == nil {
+					continue
+				}
+				for _, r2 := range *fa.Referrers() {
+					if st, isSt := r2.(*ssa.Store); isSt && st.Addr == ssa.Value(fa) && pointerish(st.Val.Type()) && len(rootsOf(st.Val, f)) > 0 {
+						ok = false
+					}
+				}
+			}
+		}
 	}
 	if ok {
 		freshMemo[f] = 1
